@@ -226,6 +226,18 @@ pub fn space(run: &Run) -> Space {
             full_product: false,
         }));
     }
+    // F5: alternative derivations. Every well-formed table whose entries are substrings (>= 2 letters)
+    // of one word, every subset in every id order: the same token is reachable through different
+    // splits, with ids that do not increase along the way (no trained table has that shape)
+    let f5 = substring_tables("abcd", 6);
+    counts.insert("F5 all tables of substrings of abcd, every subset x every id order".into(), f5.len());
+    lens.insert("F5 substring tables (strings over {a,b,c,d})".into(), pick(4, 5));
+    jobs.extend(f5.into_iter().map(|table| Job { kind: Kind::Table { family: "F5-substring-orders", table }, main_len: pick(4, 5), full_product: false }));
+    if !quick {
+        let f5e = substring_tables("abcde", 4);
+        counts.insert("F5 all tables of <= 4 substrings of abcde, every id order".into(), f5e.len());
+        jobs.extend(f5e.into_iter().map(|table| Job { kind: Kind::Table { family: "F5-substring-orders", table }, main_len: 5, full_product: false }));
+    }
     for j in &jobs {
         if let Kind::Table { table, .. } = &j.kind {
             if !refs::table_well_formed(table) {
@@ -256,6 +268,40 @@ pub fn space(run: &Run) -> Space {
         sp.units.push((start, sp.jobs.len()));
     }
     sp
+}
+
+/// all well-formed tables made of at most `max_entries` distinct substrings (>= 2 letters) of `word`,
+/// in every order
+pub fn substring_tables(word: &str, max_entries: usize) -> Vec<Table> {
+    let w = word.as_bytes();
+    let mut subs: Vec<Vec<u8>> = vec![];
+    for len in 2..=w.len() {
+        for i in 0..=w.len() - len {
+            subs.push(w[i..i + len].to_vec());
+        }
+    }
+    let mut out: Vec<Table> = vec![];
+    fn rec(subs: &[Vec<u8>], cur: &mut Table, max: usize, out: &mut Vec<Table>) {
+        if !cur.is_empty() {
+            out.push(cur.clone());
+        }
+        if cur.len() == max {
+            return;
+        }
+        for s in subs {
+            if cur.contains(s) {
+                continue;
+            }
+            cur.push(s.clone());
+            // prune: a prefix that is not well-formed cannot become well-formed
+            if refs::table_well_formed(cur) {
+                rec(subs, cur, max, out);
+            }
+            cur.pop();
+        }
+    }
+    rec(&subs, &mut vec![], max_entries, &mut out);
+    out
 }
 
 pub fn lossy(t: &Table) -> Vec<String> {
@@ -676,6 +722,7 @@ pub fn drive(id: &'static str, mut oracle: impl Oracle) -> ! {
     }
     let strs = Strs::new(sp.max_len);
     let ws_strs = Strs::with_alpha(&WS_ALPHA, WS_MAX_LEN);
+    let abcde_strs = Strs::with_alpha(&["a", "b", "c", "d", "e"], 5);
     run.bounds.insert("string_alphabet".into(), json!(ALPHA));
     run.bounds.insert("white_space_string_set".into(), json!(format!("all strings over {WS_ALPHA:?} up to {WS_MAX_LEN} symbols, on the hand tables and the exhaustive tables with <= 1 entry (main configuration)")));
     run.bounds.insert("tables".into(), json!(sp.counts));
@@ -714,7 +761,7 @@ pub fn drive(id: &'static str, mut oracle: impl Oracle) -> ! {
         }
         for j in &sp.jobs[*a..*z] {
             match &j.kind {
-                Kind::Table { family, table } => run_table(&mut run, &mut oracle, &scratch, &sp, j, &strs, &ws_strs, family, table, None, &mut buf),
+                Kind::Table { family, table } => run_table(&mut run, &mut oracle, &scratch, &sp, j, if family.starts_with("F5") { &abcde_strs } else { &strs }, &ws_strs, family, table, None, &mut buf),
                 Kind::Train { corpus, merges } => {
                     run.calls += 1;
                     match train(&scratch, corpus, *merges) {
